@@ -584,4 +584,228 @@ theorem noCommitSince_false {w : Width} (t : Nat) (log : List (Event w)) (h : no
   have := congrArg List.reverse hl
   simpa using this
 
+/-! ### the commuting operators -/
+
+theorem trunc_neg8 (y : BitVec 32) : (-y).setWidth 8 = -(y.setWidth 8) := by
+  apply BitVec.eq_of_toNat_eq
+  simp only [BitVec.toNat_setWidth, BitVec.toNat_neg]
+  have hy := y.isLt
+  omega
+theorem trunc_neg16 (y : BitVec 32) : (-y).setWidth 16 = -(y.setWidth 16) := by
+  apply BitVec.eq_of_toNat_eq
+  simp only [BitVec.toNat_setWidth, BitVec.toNat_neg]
+  have hy := y.isLt
+  omega
+theorem trunc_sub8 (x y : BitVec 32) : (x - y).setWidth 8 = x.setWidth 8 - y.setWidth 8 := by
+  rw [BitVec.sub_eq_add_neg, BitVec.sub_eq_add_neg, BitVec.setWidth_add _ _ (by decide), trunc_neg8]
+theorem trunc_sub16 (x y : BitVec 32) : (x - y).setWidth 16 = x.setWidth 16 - y.setWidth 16 := by
+  rw [BitVec.sub_eq_add_neg, BitVec.sub_eq_add_neg, BitVec.setWidth_add _ _ (by decide), trunc_neg16]
+
+theorem trunc_sext8 (v : BitVec 8) : (v.signExtend 32).setWidth 8 = v := by
+  apply BitVec.eq_of_getLsbD_eq; intro i hi
+  have h32 : i < 32 := by omega
+  simp [hi, h32, BitVec.getElem_signExtend]
+theorem trunc_sext16 (v : BitVec 16) : (v.signExtend 32).setWidth 16 = v := by
+  apply BitVec.eq_of_getLsbD_eq; intro i hi
+  have h32 : i < 32 := by omega
+  simp [hi, h32, BitVec.getElem_signExtend]
+theorem trunc_zext8 (v : BitVec 8) : (v.setWidth 32).setWidth 8 = v := by
+  apply BitVec.eq_of_getLsbD_eq; intro i hi; simp [hi]
+theorem trunc_zext16 (v : BitVec 16) : (v.setWidth 32).setWidth 16 = v := by
+  apply BitVec.eq_of_getLsbD_eq; intro i hi; simp [hi]
+
+
+/-- for `+= -= *= &= |= ^=` the promote-operate-truncate pipeline is the operation at the object's own width,
+    for every width and signedness, and it never traps -/
+theorem Op.fn_pure (w : Width) (sg : Bool) (op : Op) (h : op.commClass.isSome = true) (v c : Word w) :
+    Op.fn w sg op v c = some (op.pure c v) := by
+  cases w <;> cases sg <;> cases op <;> simp [Op.commClass] at h <;>
+    simp [Op.fn, opAt, Op.pure, BitVec.setWidth_add, BitVec.setWidth_mul, trunc_sub8, trunc_sub16,
+      trunc_sext8, trunc_sext16, trunc_zext8, trunc_zext16]
+
+theorem Op.pure_comm {n : Nat} (o1 o2 : Op) (h1 : o1.commClass.isSome = true) (h : o1.commClass = o2.commClass)
+    (c a b : BitVec n) : o2.pure (o1.pure c a) b = o1.pure (o2.pure c b) a := by
+  cases o1 <;> cases o2 <;> simp [Op.commClass] at h h1 <;> simp only [Op.pure, BitVec.sub_eq_add_neg] <;> ac_rfl
+
+theorem applyOp_rmw_fn (w : Width) (sg : Bool) (op : Op) (h : op.commClass.isSome = true) (v c : Word w) (ro : Bool) :
+    applyOp c (.rmw (Op.fn w sg op v) ro) = op.pure c v := by
+  simp [applyOp, Oper.spec, Op.fn_pure w sg op h]
+
+theorem foldl_congr_mem {α β : Type} (f g : β → α → β) (l : List α) (init : β)
+    (h : ∀ c, ∀ x ∈ l, f c x = g c x) : l.foldl f init = l.foldl g init := by
+  induction l generalizing init with
+  | nil => rfl
+  | cons a l ih =>
+    simp only [List.foldl_cons]
+    rw [h init a (by simp)]
+    exact ih _ (fun c x hx => h c x (by simp [hx]))
+
+/-! ### progress -/
+
+theorem distance_le {w : Width} (th : Thread w) (c : Word w) : th.distance c ≤ 30 := by
+  unfold Thread.distance
+  cases th.pc <;> simp <;> split <;> omega
+
+macro "prog_simp" : tactic => `(tactic|
+  simp [TInv, Thread.distance, Thread.pendingRes, Thread.succeeded, Thread.believes,
+        readReg_loadExt, readReg_writeReg, bit8_ne_zero, bit8_ext32, write_al_zero, movzx_test, zext8_32_eq_zero, *] at *)
+
+/-- one instruction of a thread inside a retry loop that has not succeeded yet: it commits, or traps, or gets
+    one instruction closer to its next successful `lock cmpxchg` -/
+theorem step_progress {w : Width} (k : Kind) (c : Word w) (th : Thread w) (f : Word w → Option (Word w)) (ro : Bool)
+    (rest : List (Oper w)) (hT : TInv th) (htodo : th.todo = .rmw f ro :: rest) (hp : th.pendingRes = none)
+    (htrap : th.pc ≠ .trap) :
+    let out := stepThread k c th
+    (∃ o r, out.ev = some (.commit o r)) ∨ out.th.pc = .trap ∨
+      (out.cell = c ∧ out.th.distance c + 1 = th.distance c ∧ out.th.pendingRes = none ∧ out.th.todo = th.todo ∧
+        out.th.pc ≠ .trap ∧ (∀ o r, out.ev ≠ some (.commit o r))) := by
+  cases hpc : th.pc <;> simp only [stepThread, htodo, hpc]
+  case compute => cases hf : f th.old <;> prog_simp <;> (split <;> omega)
+  case cmpxchg =>
+    by_cases hc : c = readReg w th.rax
+    · rw [lockCmpxchg_eq hc]; prog_simp
+    · have hc' : ¬ readReg w th.rax = c := fun h => hc h.symm
+      rw [lockCmpxchg_ne hc]; prog_simp
+  case je => cases hz : th.zf <;> prog_simp <;> (split <;> omega)
+  case jne => cases hz : th.zf <;> prog_simp <;> (split <;> omega)
+  all_goals (try prog_simp)
+  all_goals (try (split <;> omega))
+  all_goals (try (simp_all <;> (try (split <;> omega))))
+
+/-! ### commits only accumulate -/
+
+theorem commits_append {w : Width} (l : List (Event w)) (e : Event w) :
+    (commits (l ++ [e])).length = (commits l).length + (if e.kind.isCommit then 1 else 0) := by
+  simp only [commits, List.filterMap_append, List.length_append]
+  cases hk : e.kind <;> simp [List.filterMap, hk, EvKind.isCommit]
+
+theorem ncommits_step {w : Width} (t : Nat) (s : Sys w) : ncommits s ≤ ncommits (step t s) := by
+  unfold step ncommits
+  cases hth : s.threads[t]? with
+  | none => simp
+  | some th =>
+    simp only
+    cases (stepThread s.kind s.cell th).ev with
+    | none => simp
+    | some ek => simp only [Option.map_some, Option.toList_some]; rw [commits_append]; omega
+
+theorem ncommits_exec {w : Width} (sched : List Nat) : ∀ (s : Sys w), ncommits s ≤ ncommits (exec sched s) := by
+  induction sched with
+  | nil => intro s; exact Nat.le_refl _
+  | cons t rest ih => intro s; exact Nat.le_trans (ncommits_step t s) (ih (step t s))
+
+theorem trapped_step {w : Width} {s : Sys w} {t : Nat} (u : Nat) (h : trapped s t) : trapped (step u s) t := by
+  obtain ⟨th, hth, hpc⟩ := h
+  unfold step
+  cases hu : s.threads[u]? with
+  | none => exact ⟨th, by simpa using hth, hpc⟩
+  | some thu =>
+    simp only
+    by_cases hut : u = t
+    · subst hut
+      have : thu = th := by rw [hth] at hu; cases hu; rfl
+      subst this
+      have hlt : u < s.threads.length := (List.getElem?_eq_some_iff.mp hth).1
+      refine ⟨(stepThread s.kind s.cell thu).th, by simp [List.getElem?_set_self hlt], ?_⟩
+      unfold stepThread
+      cases htodo : thu.todo with
+      | nil => simpa [htodo] using hpc
+      | cons o rest => cases o <;> simp [hpc]
+    · exact ⟨th, by simpa [List.getElem?_set_ne hut] using hth, hpc⟩
+
+theorem trapped_exec {w : Width} (sched : List Nat) : ∀ {s : Sys w} {t : Nat}, trapped s t → trapped (exec sched s) t := by
+  induction sched with
+  | nil => intro s t h; exact h
+  | cons u rest ih => intro s t h; exact ih (trapped_step u h)
+
+/-- as long as nobody commits, every instruction of a waiting thread brings it one closer to its next
+    successful `lock cmpxchg` (or it traps), and instructions of other threads do not move it -/
+theorem progress_aux {w : Width} {init : Word w} {progs : List (List (Oper w))} (t : Nat)
+    (f : Word w → Option (Word w)) (ro : Bool) (rest : List (Oper w)) (sched : List Nat) :
+    ∀ {s : Sys w}, Good init progs s → Waiting s t f ro rest → ncommits (exec sched s) = ncommits s →
+      trapped (exec sched s) t ∨ sched.count t + distanceOf (exec sched s) t = distanceOf s t := by
+  induction sched with
+  | nil => intro s _ _ _; right; simp [exec]
+  | cons u sched' ih =>
+    intro s g hw hn
+    have hn1 : ncommits (step u s) = ncommits s := by
+      have a := ncommits_step u s
+      have b := ncommits_exec sched' (step u s)
+      simp only [exec, List.foldl_cons] at hn
+      have : ncommits (exec sched' (step u s)) = ncommits s := hn
+      omega
+    have hn2 : ncommits (exec sched' (step u s)) = ncommits (step u s) := by
+      simp only [exec, List.foldl_cons] at hn
+      have : ncommits (exec sched' (step u s)) = ncommits s := hn
+      omega
+    have g1 := Good_step g u
+    obtain ⟨th, hth, htodo, hpr, hpc⟩ := hw
+    have hlt : t < s.threads.length := (List.getElem?_eq_some_iff.mp hth).1
+    by_cases hut : u = t
+    · subst hut
+      have hT := (g.thr u th hth).1
+      have sp := step_progress s.kind s.cell th f ro rest hT htodo hpr hpc
+      have hstep : step u s = { s with cell := (stepThread s.kind s.cell th).cell,
+                                       threads := s.threads.set u (stepThread s.kind s.cell th).th,
+                                       log := s.log ++ ((stepThread s.kind s.cell th).ev.map (Event.mk u)).toList } := by
+        simp [step, hth]
+      rcases sp with ⟨o, r, hev⟩ | htrap | ⟨hcell, hdist, hpr', htodo', hpc', hnc⟩
+      · exfalso
+        have : ncommits (step u s) = ncommits s + 1 := by
+          rw [hstep]; simp only [ncommits, hev, Option.map_some, Option.toList_some]
+          rw [commits_append]; simp [EvKind.isCommit]
+        omega
+      · left
+        have : trapped (step u s) u := ⟨_, by rw [hstep]; simp [List.getElem?_set_self hlt], htrap⟩
+        simpa [exec] using trapped_exec sched' this
+      · have hw1 : Waiting (step u s) u f ro rest :=
+          ⟨_, by rw [hstep]; simp [List.getElem?_set_self hlt], by rw [htodo', htodo], hpr', hpc'⟩
+        have hd1 : distanceOf (step u s) u + 1 = distanceOf s u := by
+          simp only [distanceOf, hth]
+          rw [hstep]; simp only [List.getElem?_set_self hlt, hcell]
+          exact hdist
+        rcases ih g1 hw1 hn2 with h | h
+        · left; simpa [exec] using h
+        · right
+          simp only [exec, List.foldl_cons, List.count_cons_self] at h ⊢
+          have : distanceOf (exec sched' (step u s)) u = distanceOf (List.foldl (fun s t => step t s) (step u s) sched') u := rfl
+          omega
+    · -- another thread (or no thread) steps
+      have hth1 : (step u s).threads[t]? = some th := by
+        unfold step
+        cases hu : s.threads[u]? with
+        | none => simpa using hth
+        | some thu => simp [List.getElem?_set_ne hut, hth]
+      have hcell1 : (step u s).cell = s.cell := by
+        unfold step
+        cases hu : s.threads[u]? with
+        | none => rfl
+        | some thu =>
+          simp only
+          have ok := stepOK s.kind s.cell thu (g.thr u thu hu).1
+          have heff := ok.eff
+          simp only [Eff] at heff
+          cases hev : (stepThread s.kind s.cell thu).ev with
+          | none => simp only [hev] at heff; exact heff.1
+          | some ek =>
+            cases ek with
+            | read => simp only [hev] at heff; exact heff.1
+            | commit o r =>
+              exfalso
+              have : ncommits (step u s) = ncommits s + 1 := by
+                simp only [ncommits, step, hu, hev, Option.map_some, Option.toList_some]
+                rw [commits_append]; simp [EvKind.isCommit]
+              omega
+      have hw1 : Waiting (step u s) t f ro rest := ⟨th, hth1, htodo, hpr, hpc⟩
+      have hd1 : distanceOf (step u s) t = distanceOf s t := by
+        simp only [distanceOf, hth1, hth, hcell1]
+      rcases ih g1 hw1 hn2 with h | h
+      · left; simpa [exec] using h
+      · right
+        simp only [exec, List.foldl_cons] at h ⊢
+        rw [List.count_cons_of_ne hut]
+        have : distanceOf (exec sched' (step u s)) t = distanceOf (List.foldl (fun s t => step t s) (step u s) sched') t := rfl
+        omega
+
+
 end ChibiVerif.Atomics
